@@ -697,9 +697,15 @@ func (e *env) writeDoc(op Op, d *mdoc, by int, tw *twin) *hx.Failure {
 			ok, err := c.Delete(ctx, did)
 			return ok && err == nil, fmt.Sprintf("deleted=%v err=%v", ok, err)
 		}
-		doc, err := client.NewDocWithID(did, c.Definition())
+		// the regular flow is Get-Set-Update; a writer who cannot Get the document tries with a bare document of that id.
+		// (A bare document is never used when Get works: Update of a partial document that omits an indexed field
+		// rewrites the index entry as null and a later update reports "corrupted index" - an index defect, not ACP.)
+		doc, err := c.Get(ctx, did, false)
 		if err != nil {
-			hx.Harnessf("NewDocWithID: %v", err)
+			doc, err = client.NewDocWithID(did, c.Definition())
+			if err != nil {
+				hx.Harnessf("NewDocWithID: %v", err)
+			}
 		}
 		for f, v := range js {
 			if err := doc.Set(f, v); err != nil {
@@ -893,7 +899,7 @@ func (e *env) cids() map[string]*docCids {
 	return out
 }
 
-func (e *env) cidOf(d *mdoc, ver int, field bool) string {
+func (e *env) cidOf(d *mdoc, ver int, field bool, noDelete bool) string {
 	if d == nil {
 		return missingCid
 	}
@@ -904,6 +910,11 @@ func (e *env) cidOf(d *mdoc, ver int, field bool) string {
 	l := dc.composite
 	if field {
 		l = dc.field
+	}
+	if noDelete && d.deleted && !field && len(l) > 0 {
+		// a time-travel read AT a delete commit deadlocks in the versioned fetcher (corekv/memory iterator+Set in
+		// DocComposite.deleteWithPrefix), with or without ACP: outside this property, never requested here.
+		l = l[:len(l)-1]
 	}
 	if len(l) == 0 {
 		return missingCid
@@ -927,7 +938,7 @@ func (e *env) resolve(tpl string, pick func(col, idx int) *mdoc) string {
 			return d.id
 		}
 		v, _ := strconv.Atoi(p[3])
-		return e.cidOf(d, v, false)
+		return e.cidOf(d, v, false, true)
 	})
 }
 
@@ -1020,7 +1031,7 @@ func (e *env) request(r int, rq Req, twp **twin) *hx.Failure {
 				id = d.id
 			}
 			if ver >= 0 && rq.K == "commits" {
-				args = append(args, fmt.Sprintf("cid: %s", gqlStr(e.cidOf(d, ver, false))))
+				args = append(args, fmt.Sprintf("cid: %s", gqlStr(e.cidOf(d, ver, false, false))))
 			} else {
 				args = append(args, fmt.Sprintf("docID: %s", gqlStr(id)))
 			}
@@ -1060,7 +1071,7 @@ func (e *env) request(r int, rq Req, twp **twin) *hx.Failure {
 			pick = e.pickVisible(r)
 		}
 		d := pick(rq.Col, rq.Doc)
-		cid := e.cidOf(d, rq.Ver, rq.FieldCi)
+		cid := e.cidOf(d, rq.Ver, rq.FieldCi, true)
 		args := []string{fmt.Sprintf("cid: %s", gqlStr(cid))}
 		if rq.WithDoc {
 			id := e.missing[rq.Col]
@@ -1355,6 +1366,9 @@ func (e *env) subscribe(r int, rq Req, tw *twin) *hx.Failure {
 	hiddenActivity := 0
 	var wf *hx.Failure
 	for _, op := range rq.Burst {
+		if op.K != "create" && op.K != "update" {
+			continue // see drawBurst: a delete notification deadlocks on any node
+		}
 		before := len(e.log)
 		if wf = e.write(op, tw, pick, avoid); wf != nil {
 			break
